@@ -18,3 +18,26 @@ Proof.
   - intros i. unfold print_eid. apply join_concat.
   - apply join_concat.
 Qed.
+
+(* ---- the two integer kernels of the expansion ConvertExtendedSpatialIDToSpatialIDs (integrate.HorizontalZoomMinMax for hZoom < vZoom,
+   the bounds of integrate.VerticalZoom for hZoom > vZoom) as REGENERATED WITH GO'S int64 SEMANTICS (generated/Generated64.v): on every
+   valid ID they do not panic (Some), no intermediate leaves the int64 range (flag true) and the value is the one the model expand_rec /
+   expand_eid uses (ZoomCore.hzoom_minmax / vzoom_minmax). This is the sentence "there no intermediate exceeds 2^36 and int64 cannot
+   wrap" of meta/C10.json as a theorem for these kernels; the loops over the ranges, the string formatting and the object accessors
+   stay hand-written (tied by the differential runs). ---- *)
+From Coq Require Import Lia.
+From SIDGen Require Generated64.
+From SID Require Import ZoomCore GenEqZoom GenEq64Zoom.
+Theorem int64_expansion_kernels_fit_on_valid_ids i : valid i ->
+  Generated64.HorizontalZoomMinMax (eh i) (Ids.ex i) (ey i) (ev i) = Some (hzoom_minmax (eh i) (Ids.ex i) (ey i) (ev i), true) /\
+  Generated64.VerticalZoom_minmax (ev i) (ef i) (eh i) = Some (vzoom_minmax (ev i) (ef i) (eh i), true).
+Proof.
+  intros (Vh & Vv & Vx & Vy & Vf). split.
+  - rewrite gen64_HorizontalZoomMinMax_fits by lia. now rewrite gen_HorizontalZoomMinMax_eq.
+  - rewrite gen64_VerticalZoom_minmax_fits by lia. now rewrite gen_VerticalZoom_minmax_eq.
+Qed.
+(* outside the grid the int64 code wraps where the unbounded model does not: x = 2^62 at zoom 0 expanded to zoom 2 *)
+Example int64_expansion_wraps_outside_the_grid :
+  Generated64.HorizontalZoomMinMax 0 (2 ^ 62) 0 2 = Some ((0, 0, 3, 3), false) /\
+  Generated.HorizontalZoomMinMax 0 (2 ^ 62) 0 2 = (2 ^ 64, 0, 2 ^ 64 + 3, 3).
+Proof. vm_compute. split; reflexivity. Qed.
